@@ -107,8 +107,8 @@ async def evaluate(mpc, e, idx, l):
             r = {'add': lambda: a + b, 'sub': lambda: a - b, 'mul': lambda: a * b, 'lt': lambda: a < b,
                  'le': lambda: a <= b, 'eq': lambda: a == b, 'ne': lambda: a != b, 'ge': lambda: a >= b,
                  'gt': lambda: a > b, 'min': lambda: mpc.min(a, b), 'max': lambda: mpc.max(a, b),
-                 'gcd': lambda: mpc.gcd(a, b), 'lcm': lambda: mpc.lcm(a, b), 'and': lambda: mpc.and_(a, b),
-                 'or': lambda: mpc.or_(a, b)}[op]()
+                 'gcd': lambda: mpc.gcd(a, b), 'lcm': lambda: mpc.lcm(a, b), 'and': lambda: a & b,
+                 'or': lambda: a | b}[op]()       # (& and | of secure integers are defined for bits)
         elif op == 'ifelse':
             c = inp(e['c'], 2)
             b = inp(e['b'], 1)
@@ -248,7 +248,7 @@ def run(ctx):
                 # thorough: complete tables on the first three configurations, samples of 1200 on the others (m up to 7)
                 cap = 700 if ctx.quick else (10 ** 9 if (m, t, no_prss) in configs(False, ctx.seed)[:3] else 1200)
                 sub = rnd.sample(cases, cap) if len(cases) > cap else cases
-                st, results, errors = run_batch(sub, evaluate, m, t, seed=ctx.seed + l, no_prss=no_prss, sec_param=k, ctxarg=l)
+                st, results, errors = run_batch(sub, evaluate, m, t, seed=ctx.seed + l, no_prss=no_prss, sec_param=k, ctxarg=l, max_steps=100000000)
                 tag = f'l{l}k{k}m{m}t{t}{"n" if no_prss else "p"}'
                 if st != 'done' or any(errors):
                     ctx.violation('C01:run:not-complete', {'config': tag, 'status': st, 'errors': [e[:2] for e in errors]})
